@@ -13,8 +13,8 @@ pub const DIRS: [&str; 3] = ["", "sub", "sub/deep"];
 pub const SHAPES: [&str; 3] = ["a.txt.txtpp", "b.txtpp.txt", "c.txtpp"];
 pub const DOTTED: [&str; 3] = ["g.h.i.txtpp", "g2.h.txtpp.i", "g3.h.txtpp"];
 pub const LOOKALIKES: [&str; 6] = ["txtpp", ".txtpp", ".txtpp.x", "d.txtpp.b.c", "e.txt", "F.TXTPP"];
-pub const SPELLINGS: [&str; 15] = [
-    ".", "sub", "sub/deep", "./sub/..", "a.txt", "a.txt.txtpp", "./a.txt", "sub/../a.txt", "ABS:a.txt", "sub/b.txt", "sub/deep/c", "missing.txt",
+pub const SPELLINGS: [&str; 17] = [
+    "sub/", "./", ".", "sub", "sub/deep", "./sub/..", "a.txt", "a.txt.txtpp", "./a.txt", "sub/../a.txt", "ABS:a.txt", "sub/b.txt", "sub/deep/c", "missing.txt",
     "missing.txtpp", "e.txt", "txtpp",
 ];
 
@@ -54,6 +54,10 @@ impl TreeSpec {
     pub fn includes(&self) -> bool {
         self.include_variant && self.masks[0] & 1 == 1 && self.masks[1] & 2 == 2
     }
+    /// sub/b.txtpp.txt additionally depends on sub/deep/c.txtpp
+    pub fn includes2(&self) -> bool {
+        self.includes() && self.masks[2] & 4 == 4
+    }
     pub fn tree(&self) -> Tree {
         let mut t = Tree::new();
         for d in DIRS {
@@ -64,6 +68,8 @@ impl TreeSpec {
         for s in self.sources() {
             let body = if s == "a.txt.txtpp" && self.includes() {
                 format!("TXTPP#include sub/b.txt\n-TXTPP#write {s}\n")
+            } else if s == "sub/b.txtpp.txt" && self.includes2() {
+                format!("TXTPP#after deep/c\n-TXTPP#write {s}\n")
             } else {
                 format!("-TXTPP#write {s}\n")
             };
@@ -119,6 +125,9 @@ pub fn expected_set(spec: &TreeSpec, inputs: &[String], recursive: bool, mode: &
     }
     if *mode != Mode::Clean && spec.includes() && set.contains("a.txt.txtpp") {
         set.insert("sub/b.txtpp.txt".to_string());
+    }
+    if *mode != Mode::Clean && spec.includes2() && set.contains("sub/b.txtpp.txt") {
+        set.insert("sub/deep/c.txtpp".to_string());
     }
     Ok(set)
 }
@@ -357,7 +366,7 @@ pub fn run_c11(tier: &str) -> i32 {
     let lists1 = input_lists(1);
     rep.set("trees", json!(specs.len()));
     rep.set("input_lists", json!(lists.len()));
-    rep.set("bounds", json!(format!("{} trees (3 directory levels x subsets of 3 source-name shapes, look-alikes in every directory, dotted-stem and include variants) x input lists of length <= {} over 15 spellings x recursive on/off x build/needed/verify/clean x base absolute/relative", specs.len(), if thorough { 2 } else { 1 })));
+    rep.set("bounds", json!(format!("{} trees (3 directory levels x subsets of 3 source-name shapes, look-alikes in every directory, dotted-stem and include variants) x input lists of length <= {} over 17 spellings x recursive on/off x build/needed/verify/clean x base absolute/relative", specs.len(), if thorough { 2 } else { 1 })));
     rep.assume("the reference set-of-sources function (harness/src/etree.rs: expected_set) is written from the property statement");
     rep.st(specs.len());
     sharded_dyn(&rep, par_threads(), |_k, _n, next, rep| {
@@ -385,7 +394,7 @@ pub fn run_c11(tier: &str) -> i32 {
                     rep.tr(4);
                 }
                 if thorough && (i % 8 == 7 || spec.dotted || spec.include_variant) {
-                    for l in lists.iter().skip(15) {
+                    for l in lists.iter().skip(17) {
                         check_case(rep, &env, spec, l, rec, &Mode::Clean, false);
                         rep.tr(1);
                     }
